@@ -102,7 +102,7 @@ Proof.
   - intros [c [n [H1 [H2 [H3 H4]]]]]. exists c, n. rewrite Hn, Hc. tauto.
   - intros [c [n [f [H1 [H2 [H3 [H4 H5]]]]]]]. exists c, n, f. rewrite Hn, Hc. tauto.
   - intros [c [H1 [H2 [H3 H4]]]]. exists c. rewrite Hn, Hc. repeat split; try assumption; lia.
-  - intros [c [H1 [H2 [H3 [H4 H5]]]]]. exists c. rewrite Hn, Hc. repeat split; try assumption; lia.
+  - intros [c [H1 [H2 [H3 [H4 [H5 [H6 H7]]]]]]]. exists c. rewrite Hn, Hc. repeat split; try assumption; lia.
 Qed.
 
 Lemma task_ok_ext st st' b p :
@@ -301,8 +301,13 @@ Proof. intros H. destruct ph; np_solve H. Qed.
 Lemma np_advance ph ph' : next_phase ph MAdvance = Some ph' -> ph = PLogged true /\ ph' = PAdvanced.
 Proof. intros H. destruct ph; np_solve H. Qed.
 Lemma np_unlock ph ph' : next_phase ph MUnlock = Some ph' ->
-  ph' = PIdle /\ (ph = PLocked \/ ph = PChosen \/ ph = PAlloc \/ ph = PAdvanced \/ exists k, ph = PChild k true true).
-Proof. intros H. destruct ph; np_solve H. Qed.
+  ph' = PIdle /\ (ph = PLocked \/ ph = PChosen \/ ph = PAlloc \/ ph = PAdvanced \/ (exists k, ph = PChild k true true) \/ ph = PChild 1 true false).
+Proof.
+  intros H. destruct ph as [| | |sc0| | |k sc nx| | |]; try (solve [np_solve H]).
+  cbn in H. destruct sc; [|discriminate H]. destruct nx; cbn [orb] in H.
+  - inversion H. split; [reflexivity|]. right. right. right. right. left. exists k. reflexivity.
+  - destruct (k =? 1) eqn:E; [|discriminate H]. apply N.eqb_eq in E. subst k. inversion H. split; [reflexivity|]. repeat right. reflexivity.
+Qed.
 Lemma np_alloc ph ph' : next_phase ph MAlloc = Some ph' -> ph = PLocked /\ ph' = PAlloc.
 Proof. intros H. destruct ph; np_solve H. Qed.
 Lemma np_fixed ph n t ar ph' : next_phase ph (MLogAppendFixed n t ar) = Some ph' ->
@@ -418,6 +423,32 @@ Section Step.
     - intros Hu. apply Hus_tail. apply Hus'. exact Hu.
     - intros c n Hcn'. rewrite Hn in Hcn'. rewrite Hc. destruct (i_next _ Iv _ _ Hcn') as [E|E]; [left; exact E|].
       right. apply Hbz. apply busy_is_me; assumption.
+    - intros c Hfc. rewrite Hc, Hn. apply (i_fresh _ Iv). lia.
+  Qed.
+
+  (* the same when the owner lets go of a thread whose counter the cache does not hold (a creation whose index save
+     failed: the guard is dropped with the child's counter never recorded) *)
+  Lemma holder_release_step st' p' :
+    holds (p_ph p) = true ->
+    s_procs st' = upd (s_procs st) a (Some p') ->
+    s_log st' = s_log st -> s_next st' = s_next st -> s_fresh st <= s_fresh st' ->
+    s_mu st' = (if holds (p_ph p') then Some a else None) ->
+    s_tmu st' = s_tmu st -> s_tcnt st' = s_tcnt st ->
+    wf_from (p_ph p') (p_rem p') = true -> tholds (p_ph p') = false ->
+    (uses_sess (p_rem p') = true -> uses_sess r = true) ->
+    p_sess p' = p_sess p -> p_cnt p' = p_cnt p ->
+    cont_ok st' p' -> (forall c, busy_on p c -> busy_on p' c \/ s_next st c = None) ->
+    Inv st'.
+  Proof using All.
+    intros Hh Hprocs Hl Hn Hf Hmu Htm Htc Hwf' Hth Hus' Hse Hcn Hco Hbz.
+    assert (Hc : forall c, cnext st' c = cnext st c) by (intros c; unfold cnext; rewrite Hl; reflexivity).
+    apply (holder_step st st' a p p' Iv Hp Hh); try assumption.
+    - intros t. unfold tnext. rewrite Hl. reflexivity.
+    - intros t. unfold snext. rewrite Hl. reflexivity.
+    - rewrite Hl. apply (i_valid _ Iv).
+    - intros Hu. apply Hus_tail. apply Hus'. exact Hu.
+    - intros c n Hcn'. rewrite Hn in Hcn'. rewrite Hc. destruct (i_next _ Iv _ _ Hcn') as [E|E]; [left; exact E|].
+      destruct (Hbz c (busy_is_me c Hh E)) as [B|B]; [right; exact B|congruence].
     - intros c Hfc. rewrite Hc, Hn. apply (i_fresh _ Iv). lia.
   Qed.
 
@@ -626,15 +657,18 @@ Proof.
     + intros c'. unfold busy_on. rewrite Hph, Ec. congruence.
   - (* MUnlock *)
     destruct (np_unlock _ _ Hnp) as [Hph' Hcases].
-    assert (Hh : holds (p_ph p) = true) by (destruct Hcases as [E|[E|[E|[E|[k E]]]]]; rewrite E; reflexivity).
-    assert (Hnb : forall c, busy_on p c -> False) by (intros c; unfold busy_on; destruct Hcases as [E|[E|[E|[E|[k E]]]]]; rewrite E; tauto).
-    match goal with |- Inv ?s => apply (holder_quiet_step st a p _ r ph' Iv Hp Hr Hnp Hwr s (pop p MUnlock r (p_cid p) None None (p_child p) (p_cnt p)) Hh) end; try reflexivity.
+    assert (Hh : holds (p_ph p) = true) by (destruct Hcases as [E|[E|[E|[E|[[k E]|E]]]]]; rewrite E; reflexivity).
+    assert (Hrel : forall c, busy_on p c -> s_next st c = None).
+    { intros c. unfold busy_on. destruct Hcases as [E|[E|[E|[E|[[k E]|E]]]]]; rewrite E; try tauto.
+      intros Ec. unfold cont_ok in Hco. rewrite E in Hco. destruct Hco as [c0 [Ec0 [_ [_ [_ [_ [_ Hnone]]]]]]].
+      assert (c0 = c) by congruence. subst c0. apply Hnone; reflexivity. }
+    match goal with |- Inv ?s => apply (holder_release_step st a p _ r ph' Iv Hp Hr Hnp Hwr s (pop p MUnlock r (p_cid p) None None (p_child p) (p_cnt p)) Hh) end; try reflexivity.
     + proj. rewrite (phase_after_eq _ _ _ Hnp), Hph'. cbn [holds]. rewrite (Hmu Hh). apply release_self.
     + proj. rewrite (phase_after_eq _ _ _ Hnp). exact Hwr.
     + proj. rewrite (phase_after_eq _ _ _ Hnp), Hph'. reflexivity.
     + proj. tauto.
     + unfold cont_ok. proj. rewrite (phase_after_eq _ _ _ Hnp), Hph'. exact I.
-    + intros c Hc. destruct (Hnb c Hc).
+    + intros c Hc. right. apply Hrel. exact Hc.
   - (* MAlloc *)
     destruct (np_alloc _ _ Hnp) as [Hph Hph'].
     assert (Hh : holds (p_ph p) = true) by (rewrite Hph; reflexivity).
@@ -652,13 +686,16 @@ Proof.
   - (* MLogAppendFixed *)
     destruct (np_fixed _ _ _ _ _ Hnp) as [Hct Hcases].
     assert (Hh : holds (p_ph p) = true) by (destruct Hcases as [[E _]|[k [sc [nx [E _]]]]]; rewrite E; reflexivity).
-    assert (Hc : exists c, p_child p = Some c /\ c < s_fresh st /\ cnext st c = n /\ (forall c', busy_on p c' -> c' = c)).
+    assert (Hc : exists c, p_child p = Some c /\ c < s_fresh st /\ cnext st c = n /\ (forall c', busy_on p c' -> c' = c)
+                           /\ (n = 0 -> s_next st c = None)).
     { unfold cont_ok in Hco. destruct Hcases as [[E [-> _]]|[k [sc [nx [E [-> _]]]]]]; rewrite E in Hco.
       - destruct Hco as [c [H1 [H2 [H3 H4]]]]. exists c. repeat split; try assumption.
-        intros c'. unfold busy_on. rewrite E. tauto.
-      - destruct Hco as [c [H1 [H2 [H3 [H4 H5]]]]]. exists c. repeat split; try assumption.
-        intros c'. unfold busy_on. rewrite E. destruct nx; [tauto|]. congruence. }
-    destruct Hc as [c [Ec [Hlt [Hn Hbo]]]]. rewrite Ec.
+        + intros c'. unfold busy_on. rewrite E. tauto.
+        + intros _. exact H4.
+      - destruct Hco as [c [H1 [H2 [H3 [H4 [H5 [H6 H7]]]]]]]. exists c. repeat split; try assumption.
+        + intros c'. unfold busy_on. rewrite E. destruct nx; [tauto|]. congruence.
+        + intros Hk0. lia. }
+    destruct Hc as [c [Ec [Hlt [Hn [Hbo Hn0]]]]]. rewrite Ec.
     assert (Hph' : ph' = PChild (n + 1) false false).
     { destruct Hcases as [[_ [-> E]]|[k [sc [nx [_ [-> E]]]]]]; exact E. }
     match goal with |- Inv ?s => apply (holder_append_step st a p _ r ph' Iv Hp Hr Hnp Hwr s (pop p (MLogAppendFixed n t ar) r (p_cid p) (p_seq p) (Some (mk_frame st c n t ar)) (Some c) (p_cnt p)) c (mk_frame st c n t ar) Hh) end; try reflexivity; try assumption.
@@ -673,6 +710,8 @@ Proof.
         unfold cnext in Hn. cbn [sid mk_frame]. rewrite Hn. reflexivity.
       * discriminate.
       * intros f Hf. inversion Hf. reflexivity.
+      * lia.
+      * intros _ Hk1. proj. apply Hn0. lia.
     + unfold busy_on. proj. rewrite (phase_after_eq _ _ _ Hnp), Hph'. reflexivity.
   - (* MIndexInsert *)
     destruct (np_index _ _ Hnp) as [k [sc [nx [Hph Hph']]]].
@@ -683,7 +722,7 @@ Proof.
   - (* MSetNext *)
     destruct (np_setnext _ _ _ Hnp) as [k [sc [nx [Hph [-> Hph']]]]].
     assert (Hh : holds (p_ph p) = true) by (rewrite Hph; reflexivity).
-    unfold cont_ok in Hco. rewrite Hph in Hco. destruct Hco as [c [Ec [Hlt [Hn [Hnx Hl]]]]].
+    unfold cont_ok in Hco. rewrite Hph in Hco. destruct Hco as [c [Ec [Hlt [Hn [Hnx [Hl [Hk1 Hk2]]]]]]].
     rewrite Ec.
     match goal with |- Inv ?s => apply (holder_setnext_step st a p _ r ph' Iv Hp Hr Hnp Hwr s (pop_same p (MSetNext k) r) c k Hh) end; try reflexivity; try assumption.
     + rewrite Hph'. reflexivity.
@@ -691,7 +730,8 @@ Proof.
     + congruence.
     + proj. apply (phase_after_eq _ _ _ Hnp).
     + unfold cont_ok. proj. rewrite (phase_after_eq _ _ _ Hnp), Hph'. exists c. repeat split; try assumption.
-      intros _. apply upd_same.
+      * intros _. apply upd_same.
+      * intros Hd. discriminate Hd.
     + intros c'. unfold busy_on. rewrite Hph. destruct nx; [tauto|]. congruence.
   - (* MSetNextLocked *) destruct (np_none _ _ _ Hnp).
   - (* MRead *)
